@@ -126,6 +126,16 @@
 #define INSERT_VALUE_SQL "insert into item_value (container_id, name, row_num, " \
     "kind, quoted, val_text, val, val_digits, su_digits, scale) values (?, ?, ?, ?, ?, ?, ?, ?, ?, ?)"
 
+/*
+ * Records a value of the kind bound to parameter 4 (only its kind is set, as befits an unknown-value or not-applicable
+ * placeholder) for each item of loop ?2 of container ?1 that has no value yet in packet (row) ?3
+ */
+#define FILL_PACKET_SQL "insert into item_value (container_id, name, row_num, kind) " \
+    "select li.container_id, li.name, ?3, ?4 from loop_item li " \
+    "where li.container_id = ?1 and li.loop_num = ?2 and not exists (" \
+      "select 1 from item_value iv " \
+      "where iv.container_id = li.container_id and iv.name = li.name and iv.row_num = ?3)"
+
 #define UPDATE_VALUE_SQL "insert or replace into item_value (container_id, name, row_num, " \
     "kind, quoted, val_text, val, val_digits, su_digits, scale) values (?, ?, ?, ?, ?, ?, ?, ?, ?, ?)"
 
